@@ -181,10 +181,11 @@ pub fn gen_foreign(rng: &mut Rng, cfg: &ForeignCfg) -> Foreign {
             }
             .min(cap);
             let keep_msid = templates.get(&csid).map(|t| t.msid);
+            let control_len = rng.chance(3, 4);
             templates.insert(
                 csid,
                 Template {
-                    type_id: *rng.pick(&[8u8, 9, 18, 20, 4, 3, 22, 0, 255, 15, 17]),
+                    type_id: *rng.pick(&[8u8, 9, 18, 20, 4, 3, 22, 0, 255, 15, 17, 2, 5, 6]),
                     msid: match keep_msid {
                         Some(m) if rng.chance(2, 3) => m,
                         // occasionally a message stream id equal to one of the chunk stream ids in use
@@ -194,6 +195,14 @@ pub fn gen_foreign(rng: &mut Rng, cfg: &ForeignCfg) -> Foreign {
                     len,
                 },
             );
+            let t = templates.get_mut(&csid).unwrap();
+            if control_len {
+                match t.type_id {
+                    2 | 3 | 5 => t.len = 4usize.min(cap),
+                    6 => t.len = 5usize.min(cap),
+                    _ => {}
+                }
+            }
         }
         let t = templates.get(&csid).unwrap();
         let len = t.len.min(cap);
@@ -222,6 +231,12 @@ pub fn gen_foreign(rng: &mut Rng, cfg: &ForeignCfg) -> Foreign {
         };
         let mut data = vec![0u8; len];
         rng.fill(&mut data);
+        // protocol control messages whose number is a chunk stream id in use (an Abort for a
+        // chunk stream with no message in flight has nothing to discard)
+        if matches!(t.type_id, 2 | 3 | 5 | 6) && data.len() >= 4 && rng.chance(3, 4) {
+            let c = *rng.pick(&pool);
+            data[..4].copy_from_slice(&c.to_be_bytes());
+        }
         let m = Msg {
             type_id: t.type_id,
             msid: t.msid,
